@@ -911,14 +911,14 @@ def suites(tier):
     nmax = 10000
     return [
         Suite("integrals", check_integral, strategy=integral_cases(nmax),
-              examples={"quick": 750, "thorough": 7500}),
+              examples={"quick": 750, "thorough": 5000}),
         Suite("profiles", check_profile, strategy=profile_cases(),
-              examples={"quick": 40, "thorough": 400}),
+              examples={"quick": 40, "thorough": 300}),
         Suite("columns", check_columns, strategy=column_cases(),
-              examples={"quick": 150, "thorough": 1500}),
+              examples={"quick": 150, "thorough": 1000}),
         Suite("crh-columns", check_crh, strategy=crh_cases(),
               examples={"quick": 100, "thorough": 1000}),
         Suite("heights", check_heights, strategy=height_cases(),
-              examples={"quick": 200, "thorough": 2000}),
+              examples={"quick": 200, "thorough": 1500}),
         Suite("isa-table", check_isa, cases=isa_cases, exhaustive=True),
     ]
